@@ -75,6 +75,31 @@ CHECKS_K1 = {
                 "the library-private NotSet sentinel of with_latest_from. reactivex.amb (n-ary fold of amb_) is not separately contracted.",
         "technique": "K1 handler refinement per source index at arity 2 and 3, SMT",
     },
+    "C43": {
+        "text": "Lock-set contracts (guarded_by): the downstream observer, every window subject handed to it, and every state cell that "
+                "handlers share are guarded by the operator's ONE lock.  (a) Path-sensitive, on the K1 symbolic runs of merge_all_, "
+                "merge_(max_concurrent), zip_, combine_latest_, with_latest_from_ (arity 2 and 3) and amb_: on every path of every handler "
+                "of every source (pass-through handlers included) each real downstream call and each mutation of a cell list happens with "
+                "the lock held; amb_ forwards outside the lock but only under its side's guard `choice[0] == <side>`, and the guards are "
+                "proved pairwise exclusive, stable across every handler step of either source, and written only under the lock. "
+                "(b) Path-insensitive lock discipline on the AST of merge_all_, merge_, zip_, combine_latest_, with_latest_from_, "
+                "window_with_time_, window_with_time_or_count_: every nested function gets the contexts it can run in (L(lock) / "
+                "subscribing thread before anything escaped / after / handler thread; helpers inherit from their call sites by least "
+                "fixpoint), and no downstream call, no unwrapped hand-out of observer.on_*, no write to a handler-shared list or "
+                "nonlocal occurs outside L; all L contexts name one lock expression; Observable.lock is bound once. flat_map / "
+                "flat_map_indexed / reactivex.merge are proved to be `....pipe(..., merge_all())`. With the RLock contract the critical "
+                "sections serialise, so for EVERY interleaving no two threads are inside the downstream observer at once and the "
+                "downstream trace is one of the sequential traces, whose grammar K1/C11/C13/C01 prove.",
+        "note": "Trusted: rxvc and its Python-subset encoding; z3; the Lock/RLock contract (mutual exclusion, re-entrant) and A-gil; "
+                "A-static (names mean what the module source says; `synchronized(lock)` is reactivex.internal.concurrency.synchronized, "
+                "whose body `with lock: return fn(...)` is interpreted for the symbolic units but pattern-matched for the AST units); the "
+                "sequential grammar of the window operators is NOT proved here (no K1 contract for them) - for them only the "
+                "serialisation half is proved; unlocked READS of shared cells are not obligations. Refuted obligations are replayed by "
+                "racerun.py: two real threads over lock-free hot sources, thread A held inside the downstream observer while thread B "
+                "delivers one event of another source or fires the pending timer (bounded pair search - replay only; in the thorough "
+                "tier it also runs as a cross-check and is listed under bounded_standins, never counted).",
+        "technique": "K7 lock-set / guarded_by contracts: symbolic per-path lock sets on the K1 runs (SMT) + modular lock-context typing on the AST",
+    },
     "C28": {
         "text": "Function contracts with loop invariants on the real VirtualTimeScheduler (inherited unchanged by TestScheduler and "
                 "HistoricalScheduler), ScheduledItem and PriorityQueue. The run loops of start and advance_to are cut at their "
